@@ -324,7 +324,7 @@ def _r2(ctx):
     # R3 electrons: one hash value
     hf = pkg.method("Species", "__hash__")
     ctx.saw(SPECIES, "Species.__hash__")
-    paths = hash_paths(hf)
+    paths = hash_paths(hf, resolve=lambda name: pkg.method("Species", name))
     el = [p for p in paths if p[0] == "self.is_electron"]
     ctx.check(len(el) == 1 and not el[0][1], "R3", "Species.__hash__:electron", (SPECIES, hf.lineno),
               "all electron spellings hash to one constant (so e-/E/e share one slot of the species set)",
@@ -355,6 +355,8 @@ MUTANTS = [
     {"name": "electron-hash-name", "file": SPECIES, "old": '            hash("Electron")\n            if self.is_electron', "new": '            hash(self.name)\n            if self.is_electron', "rules": ["R3"]},
 ]
 MUTANTS += [
+    {"name": "eq-guard-clauses-ice-without-charge", "file": SPECIES, "old": '        if isinstance(o, Species):\n            return (\n                (self.is_electron and o.is_electron)\n                or (\n                    self.is_grain\n                    and o.is_grain\n                    and self.grain_group == o.grain_group\n                    and self.charge == o.charge\n                )\n                or (\n                    self.is_surface\n                    and o.is_surface\n                    and self.surface_group == o.surface_group\n                    and self.charge == o.charge\n                    and self.basename == o.basename\n                )\n                or self.name == o.name\n            )\n            # return (self.is_electron and o.is_electron) or self.name == o.name\n        return NotImplemented\n', "new": '        if not isinstance(o, Species):\n            return NotImplemented\n        if self.is_electron and o.is_electron:\n            return True\n        if self.is_grain and o.is_grain:\n            if self.grain_group == o.grain_group and self.charge == o.charge:\n                return True\n        if self.is_surface and o.is_surface:\n            same_group = self.surface_group == o.surface_group\n            if same_group and self.basename == o.basename:\n                return True\n        return self.name == o.name\n', "rules": ["R2"]},
+    {"name": "hash-guard-clause-electron-by-name", "file": SPECIES, "old": '        return (\n            hash("Electron")\n            if self.is_electron\n            else hash(\n                f"{self.basename}"\n                f"{self.charge}"\n                f"{self.is_grain}"\n                f"{self.grain_group}"\n                f"{self.is_surface}"\n                f"{self.surface_group}"\n            )\n        )\n\n', "new": '        if self.is_electron:\n            return hash(self.name)\n        identity = (self.basename, self.charge, self.is_grain, self.grain_group, self.is_surface, self.surface_group)\n        return hash("".join(str(part) for part in identity))\n\n', "rules": ["R3"]},
     {"name": "element-count-get-of-other-key", "file": SPECIES, "old": "        if element in self.element_count.keys():\n            self.element_count[element] += count\n        else:\n            self.element_count[element] = count\n", "new": "        self.element_count[element] = self.element_count.get(self.name, 0) + count\n", "rules": ["R6"]},
     {"name": "abund-of-other-list", "file": PHYS, "old": "zip(network.species, specabund)", "new": "zip(network.species | sort(attribute='name'), specabund)", "rules": ["R1"]},
     {"name": "term-count-of-element-species", "file": PHYS, "old": '{{ "{:.1f}".format(natom) ~ "*" ~ ab ~ " + "}}', "new": '{{ "{:.1f}*{} + ".format(elem.element_count.get(elemname), ab) }}', "rules": ["R1"]},
@@ -366,6 +368,8 @@ MUTANTS += [
     {"name": "alias-single-M", "file": SPECIES, "old": 'else "M" * abs(self.charge),', "new": 'else "M",', "rules": ["R4"]},
 ]
 BENIGN = [
+    {"name": "eq-guard-clauses", "file": SPECIES, "old": '        if isinstance(o, Species):\n            return (\n                (self.is_electron and o.is_electron)\n                or (\n                    self.is_grain\n                    and o.is_grain\n                    and self.grain_group == o.grain_group\n                    and self.charge == o.charge\n                )\n                or (\n                    self.is_surface\n                    and o.is_surface\n                    and self.surface_group == o.surface_group\n                    and self.charge == o.charge\n                    and self.basename == o.basename\n                )\n                or self.name == o.name\n            )\n            # return (self.is_electron and o.is_electron) or self.name == o.name\n        return NotImplemented\n', "new": '        if not isinstance(o, Species):\n            return NotImplemented\n        if self.is_electron and o.is_electron:\n            return True\n        if self.is_grain and o.is_grain:\n            if self.grain_group == o.grain_group and self.charge == o.charge:\n                return True\n        if self.is_surface and o.is_surface:\n            same_group = self.surface_group == o.surface_group\n            if same_group and self.charge == o.charge and self.basename == o.basename:\n                return True\n        return self.name == o.name\n'},
+    {"name": "hash-guard-clause", "file": SPECIES, "old": '        return (\n            hash("Electron")\n            if self.is_electron\n            else hash(\n                f"{self.basename}"\n                f"{self.charge}"\n                f"{self.is_grain}"\n                f"{self.grain_group}"\n                f"{self.is_surface}"\n                f"{self.surface_group}"\n            )\n        )\n\n', "new": '        if self.is_electron:\n            return hash("Electron")\n        identity = (self.basename, self.charge, self.is_grain, self.grain_group, self.is_surface, self.surface_group)\n        return hash("".join(str(part) for part in identity))\n\n'},
     {"name": "element-count-get-plus", "file": SPECIES, "old": "        if element in self.element_count.keys():\n            self.element_count[element] += count\n        else:\n            self.element_count[element] = count\n", "new": "        self.element_count[element] = self.element_count.get(element, 0) + count\n"},
     {"name": "abund-symbol-per-species", "edits": [
         {"file": PHYS, "old": '        {% set specabund = network.species | map(attribute="alias") | map("prefix", "y[IDX_") | map("suffix", "]") -%}\n', "new": ""},
